@@ -22,8 +22,12 @@ other in one process ("session": state kept between blocks, documents or Changel
 attribute or a str() difference, because the expected values are the generator's components); the product of all
 urgency spellings x all extra-pair spellings on single blocks; (5) longer-than-usual components (64-character package
 name, 80-character distribution list, 200-character change line, 6 extra pairs, all of them together), alone and
-paired with every pool block in both orders.
+paired with every pool block in both orders; (6) input forms: the twin, long-component and pool blocks, alone and as
+two-block texts, with 0-2 leading blank lines, handed to the constructor in every documented input type (str, bytes,
+list/tuple/generator of str lines, text and binary file objects, list/generator of bytes lines) - same oracle per form.
 """
+import collections
+import io
 import itertools
 import warnings
 
@@ -42,10 +46,14 @@ RULE = ("Engine B on a grammar product: states = distinct generator prefixes (pa
         "per single-block document in which one grammar component carries one swept character; near-duplicate and "
         "long-component documents: one state / transition per block appended (sessions: per document appended), traces = "
         "texts parsed (a session of two texts parsed one after the other in the same process counts two), all of them "
-        "non-trivial when they have a change line (they carry a comment and extra pairs, or a second block)")
+        "non-trivial when they have a change line (they carry a comment and extra pairs, or a second block); input "
+        "forms: one state / transition per document, one trace per (document, input form): the same text as str, bytes, "
+        "list / tuple / generator of str lines (with and without newlines), io.StringIO, io.BytesIO, list / generator of "
+        "bytes lines, every form checked against the generator's components")
 BUDGET = {"quick": 240, "thorough": 3000}
 
 POOL_SIZE = 30
+FORM_UNITS = 6
 PRISTINE_IMPORTS = ["debian.changelog"]     # what mc.zygote imports before it forks one child per case
 
 
@@ -74,9 +82,18 @@ def bounds(tier):
             "a two-block text (one-line separator) and as a session, are each evaluated in a process of their own forked "
             "from a zygote that imported the library and never ran it (mc.pristine), i.e. independent of anything "
             "parsed before; all others run in the worker process" % (TWINS, TWINS - 1, TWINS ** 2, TWINS ** 3, TWINS ** 2, TWINS)),
-        "urgency_x_pairs_spellings": "%d urgency spellings x %d extra-pair spellings (the %d combinations of the single-block "
+        "urgency_x_pairs_spellings": "%d urgency spellings (3 of the product, %d white-space/case variants, %d comments with "
+                                     "parentheses: %r) x %d extra-pair spellings (3 of the product, %d white-space/case/order "
+                                     "variants, %d with parentheses in values: %r) (the %d combinations of the single-block "
                                      "product left out) x %d change-line sequences x 0..2 leading blank lines on one block"
-                                     % (N_URG_ALL, N_KV_ALL, 9, len(_POOL_CHG)),
+                                     % (N_URG_ALL, len(_ND_COMMENTS) + 2, len(_PAREN_COMMENTS), _PAREN_COMMENTS, N_KV_ALL,
+                                        len(_ND_KV), len(_PAREN_KV), [", ".join("%s=%s" % (k, v) for k, v in kv) for kv in _PAREN_KV],
+                                        9, len(_POOL_CHG)),
+        "input_forms": "%d forms %r x documents over %d blocks (%d twins, 5 long-component blocks, %d pool blocks): each "
+                       "block alone and followed by the next block of the list (separator 1 or 2 blank lines), x 0..2 "
+                       "leading blank lines = %d documents, %d parses"
+                       % (len(FORMS), FORMS, TWINS + 5 + POOL_SIZE, TWINS, POOL_SIZE, (TWINS + 5 + POOL_SIZE) * 2 * 3,
+                          (TWINS + 5 + POOL_SIZE) * 2 * 3 * len(FORMS)),
         "long_components": "5 blocks (package name of 64 characters; 7 distributions, 80+ characters; change line of exactly "
                            "200 characters; 6 extra pairs; all four together): alone x 0..2 leading blank lines, and paired "
                            "with each of the 30 pool blocks in both orders x separator 1..2",
@@ -93,7 +110,13 @@ def assumptions():
         "urgency 'value[ comment]' is exposed as .urgency (value) and .urgency_comment (the rest, verbatim, "
         "including its leading blank) - that split is the documented ChangeBlock interface",
         "other_pairs is compared as a dict with the keys spelled as written (one generated key is upper-case)",
-        "the text is given as str (the statement's observation point); bytes / line-list input forms are not explored",
+        "the text is given as str (the statement's observation point) everywhere except in the input-forms family, "
+        "where a subset of the documents is also given in each other input type the constructor documents (param file: "
+        "'str, list of str, or file-like ... an iterator of lines such as a filehandle'; type comment IterableDataSource = "
+        "bytes | str | IO[str] | Iterable[str] | Iterable[bytes]); all ten forms are accepted by the unchanged library; "
+        "lines of the line-wise forms are the generator's own lines (not a re-split of the text), bytes are UTF-8",
+        "urgency comments and extra-pair values are free text without ',' (the heading is split at commas by dpkg and by "
+        "the library alike); parentheses in them need not balance",
         "seed rotates only letters/words inside components (package word, suite names, change text, author name); "
         "the classes of the six regexes see the same character classes for every seed",
         "near-duplicates: white space INSIDE the urgency comment, inside a key=value value, inside change text, inside the "
@@ -144,17 +167,23 @@ _ND_COMMENTS = [" (see  NEWS)", " (see\tNEWS)", "  (see NEWS)", " (seeNEWS)", " 
 _ND_KV = [[["X-a", "b"], ["y", "c  d"]], [["X-a", "b"], ["y", "c\td"]], [["X-a", "b"], ["y", "cd"]],
           [["X-a", "b"], ["y", "C D"]], [["x-a", "b"], ["y", "c d"]], [["X-a", "b"], ["Y", "c d"]],
           [["y", "c d"], ["X-a", "b"]]]
-N_URG_ALL = 3 + len(_ND_COMMENTS) + 2
-N_KV_ALL = 3 + len(_ND_KV)
+# comments / values with parentheses that do not balance (or balance only across a comma): every one is also followed by
+# further ", key=value" pairs in the spelling product
+_PAREN_COMMENTS = [" (", " (a", " a)", " (sorry :-( )", " )(", " (see NEWS) (b"]
+_PAREN_KV = [[["a", "("], ["b", ")"]], [["b", ")"], ["a", "("]], [["a", "(x"], ["b", "y)"]], [["a", "("], ["y", "c d"]],
+             [["a", "(("], ["b", "c"], ["X-a", "d"]]]
+N_URG_ALL = 3 + len(_ND_COMMENTS) + 2 + len(_PAREN_COMMENTS)
+N_KV_ALL = 3 + len(_ND_KV) + len(_PAREN_KV)
 TWINS = 25
 
 
 def urg_all(C):
-    return list(C["urg"]) + [("medium", c) for c in _ND_COMMENTS] + [("MEDIUM", " (see NEWS)"), ("Medium", " (see NEWS)")]
+    return (list(C["urg"]) + [("medium", c) for c in _ND_COMMENTS] + [("MEDIUM", " (see NEWS)"), ("Medium", " (see NEWS)")] +
+            [("low", c) for c in _PAREN_COMMENTS])
 
 
 def kv_all(C):
-    return [[list(kv) for kv in k] for k in C["kv"]] + [[list(kv) for kv in k] for k in _ND_KV]
+    return [[list(kv) for kv in k] for k in C["kv"]] + [[list(kv) for kv in k] for k in _ND_KV + _PAREN_KV]
 
 
 def twins(C):
@@ -218,6 +247,13 @@ def long_blocks(C):
         b[5] = [list(p) for p in b[5]]
         b[6] = list(b[6])
         out.append(b)
+    return out
+
+
+def form_blocks(C):
+    """blocks of the input-forms family: the twins, the long-component blocks, the pool"""
+    out = twins(C) + long_blocks(C) + pool(C)
+    assert len(out) % FORM_UNITS == 0
     return out
 
 
@@ -320,6 +356,39 @@ def render(case):
     return "".join(l + "\n" for l in lines), labels
 
 
+# input forms of one text (the constructor's documented types); "str" is what every other family uses
+FORMS = ["str", "bytes", "list of str lines with newlines", "list of str lines without newlines", "tuple of str lines",
+         "generator of str lines with newlines", "io.StringIO", "io.BytesIO", "list of bytes lines with newlines",
+         "generator of bytes lines without newlines"]
+
+
+def make_input(text, form):
+    """the text in the given input form; line-wise forms are built from the generator's lines (every line of a
+    rendered text ends with \\n and contains no other line boundary)"""
+    lines = text.split("\n")[:-1]
+    if form == "str":
+        return text
+    if form == "bytes":
+        return text.encode("utf-8")
+    if form == "list of str lines with newlines":
+        return [l + "\n" for l in lines]
+    if form == "list of str lines without newlines":
+        return list(lines)
+    if form == "tuple of str lines":
+        return tuple(lines)
+    if form == "generator of str lines with newlines":
+        return (l + "\n" for l in lines)
+    if form == "io.StringIO":
+        return io.StringIO(text)
+    if form == "io.BytesIO":
+        return io.BytesIO(text.encode("utf-8"))
+    if form == "list of bytes lines with newlines":
+        return [(l + "\n").encode("utf-8") for l in lines]
+    if form == "generator of bytes lines without newlines":
+        return (l.encode("utf-8") for l in lines)
+    raise ValueError(form)
+
+
 ATTRS = ("package", "version", "distributions", "urgency", "urgency_comment", "other_pairs", "changes", "author", "date")
 
 
@@ -350,10 +419,27 @@ def exec_case(case):
             outs.append(o)
             ev += e
         return bad, "session: " + " | ".join(outs), ev
+    if case.get("forms"):
+        # the same text in every input form.  What already fails for the str form is reported under its plain
+        # signature; a form that fails differently from str gets a signature naming the form.
+        bad, ev, outs = [], 0, collections.Counter()
+        plain = set()
+        for form in FORMS:
+            b, o, e = _exec_doc(case, form)
+            ev += e
+            outs[o] += 1
+            if form == "str":
+                plain = {sig for sig, _e, _o in b}
+                bad += b
+            else:
+                bad += [("%s+input=%s" % (sig, form.replace(" ", "-")), exp, "%s: %r" % (form, obs))
+                        for sig, exp, obs in b if sig not in plain]
+        o = " | ".join("%s x%d" % kv for kv in sorted(outs.items()))
+        return bad, "forms: " + o, ev
     return _exec_doc(case)
 
 
-def _exec_doc(case):
+def _exec_doc(case, form="str"):
     from debian.changelog import Changelog
     text, labels = render(case)
     nblocks = len(case["blocks"])
@@ -362,7 +448,7 @@ def _exec_doc(case):
     with warnings.catch_warnings(record=True) as w:
         warnings.simplefilter("always")
         try:
-            c = Changelog(text, strict=True)
+            c = Changelog(text if form == "str" else make_input(text, form), strict=True)
         except Exception as e:  # anything the parser raises on a well-formed text is a verdict
             return ([("changelog/parse/raises:%s" % type(e).__name__, "no exception", "%s: %s" % (type(e).__name__, e))],
                     "parse raises %s" % type(e).__name__, ev)
@@ -465,6 +551,7 @@ def units(tier, seed):
     out += [("twin-triple", i) for i in range(TWINS)]
     out += [("spelling", lead) for lead in range(3)]
     out += [("long", i) for i in range(5)]
+    out += [("forms", g) for g in range(FORM_UNITS)]
     for lead in range(3):
         for p in range(3):
             for v in range(3):
@@ -492,6 +579,8 @@ def unit_cost(u, tier):
         return N_URG_ALL * N_KV_ALL * len(_POOL_CHG)
     if u[0] == "long":
         return 3 + 2 * 2 * 2 * POOL_SIZE
+    if u[0] == "forms":
+        return 2 * 3 * 10 * ((TWINS + 5 + POOL_SIZE) // FORM_UNITS)
     if u[0] == "single":
         n = sum(6 ** L for L in range(_maxlen(tier) + 1))
         return 9 * n * len(_author_dates(tier))
@@ -509,7 +598,7 @@ def _rank(case):
 def _do(part, case, tag=""):
     rank = _rank(case)
     bad, outcome, ev = exec_case(case)
-    part.traces += len(case["session"]) if "session" in case else 1
+    part.traces += len(case["session"]) if "session" in case else len(FORMS) if case.get("forms") else 1
     part.evaluations += ev
     part.outcomes[tag + outcome] += 1
     if nontrivial(case):
@@ -619,6 +708,16 @@ def _run_extra_unit(part, u, C):
                     case = _doc(lead, [b], [])
                     _do(part, case, "spelling: ")
                     n += 1
+    elif kind == "forms":
+        B = form_blocks(C)
+        per = len(B) // FORM_UNITS
+        part.max_depth = 2 + 2 + 7 + 1
+        for i in range(per * u[1], per * (u[1] + 1)):
+            for lead in range(3):
+                for blocks, seps in (([B[i]], []), ([B[i], B[(i + 1) % len(B)]], [1 + i % 2])):
+                    case = dict(_doc(lead, blocks, seps), forms=1)
+                    _do(part, case, "")
+                    n += 1
     else:
         L = long_blocks(C)[u[1]]
         P = pool(C)
@@ -635,7 +734,7 @@ def _run_extra_unit(part, u, C):
                     n += 1
     part.states += n
     part.transitions += n
-    part.extra["%s documents" % kind.split("-")[0]] += part.traces
+    part.extra["(document, input form) parses" if kind == "forms" else "%s documents" % kind.split("-")[0]] += part.traces
     part.sample(case)
     return part
 
@@ -643,7 +742,7 @@ def _run_extra_unit(part, u, C):
 def run_unit(u, tier, seed):
     part = core.Part()
     C = comps(seed)
-    if u[0].startswith("twin") or u[0] in ("spelling", "long"):
+    if u[0].startswith("twin") or u[0] in ("spelling", "long", "forms"):
         return _run_extra_unit(part, u, C)
     if u[0] == "single":
         _, lead, p, v, d = u
@@ -745,6 +844,29 @@ def replay(case):
 
 
 def repro_py(case):
+    if case.get("forms"):
+        text = render(case)[0]
+        exp = [[_expected(b)[a] for a in ATTRS] for b in case["blocks"]]
+        return ("import io, warnings\nfrom debian.changelog import Changelog\n"
+                "text = %r\nexpected = %r\nlines = text.split('\\n')[:-1]\n"
+                "forms = {'str': lambda: text, 'bytes': lambda: text.encode('utf-8'),\n"
+                "         'list of str lines with newlines': lambda: [l + '\\n' for l in lines],\n"
+                "         'list of str lines without newlines': lambda: list(lines), 'tuple of str lines': lambda: tuple(lines),\n"
+                "         'generator of str lines with newlines': lambda: (l + '\\n' for l in lines),\n"
+                "         'io.StringIO': lambda: io.StringIO(text), 'io.BytesIO': lambda: io.BytesIO(text.encode('utf-8')),\n"
+                "         'list of bytes lines with newlines': lambda: [(l + '\\n').encode('utf-8') for l in lines],\n"
+                "         'generator of bytes lines without newlines': lambda: (l.encode('utf-8') for l in lines)}\n"
+                "for name, mk in forms.items():\n"
+                "    with warnings.catch_warnings(record=True) as w:\n"
+                "        warnings.simplefilter('always')\n"
+                "        c = Changelog(mk(), strict=True)\n"
+                "    assert not w, (name, [str(x.message) for x in w])\n"
+                "    assert str(c) == text, (name, str(c))\n"
+                "    assert len(c) == len(expected), (name, len(c))\n"
+                "    for b, e in zip(c, expected):\n"
+                "        got = [b.package, str(b.version), b.distributions, b.urgency, b.urgency_comment, dict(b.other_pairs),\n"
+                "               list(b.changes()), b.author, b.date]\n"
+                "        assert got == e, (name, got, e)\n" % (text, exp))
     docs = case["session"] if "session" in case else [case]
     texts = [render(d)[0] for d in docs]
     exp = [[[_expected(b)[a] for a in ATTRS] for b in d["blocks"]] for d in docs]
